@@ -6,10 +6,15 @@
    - Detection: CRC-8 and CRC-16 as used by the frame header / frame footer detect EVERY burst of
      span <= 8 resp. <= 16 bits in messages of any length (linearity proved algebraically, the
      register facts by complete sweeps over 2^8 / 2^16 states and all 2^8 / 2^16 burst windows).
-   PARTIAL: an alteration that changes how many bits the subframes consume moves the CRC window;
-   the format does not exclude an accidental match (probability about 2^-16); those cases are
+   - The CRC field itself: the acceptance test "stored field = CRC of the preceding bytes" is equivalent to "the
+     remainder of message ++ field is zero" (C16_crc16_accept_iff), hence a burst of span <= 16 (8) bits ANYWHERE in
+     message ++ field - inside the message, inside the field, or straddling the boundary - leaves a stored field
+     that differs from the CRC of the altered message (C16_crc16_field_bursts, C16_crc8_field_bursts, and at byte
+     level for the frame footer as laid out on the wire, C16_footer_bursts).
+   PARTIAL: an alteration that changes how many bits the subframes consume moves the CRC window (the frame then
+   ends elsewhere); the format does not exclude an accidental match (probability about 2^-16); those cases are
    enumerated on the implementation by the PARSE stream (exhaustively in the thorough tier). *)
-From FV Require Import Model.Base Model.Crc Proofs.CrcBurst.
+From FV Require Import Model.Base Model.Crc Proofs.CrcBurst Proofs.CrcField.
 Local Open Scope N_scope.
 
 Theorem C16_crc16_detects_bursts : forall (x y : list bool) (i j : nat) (p : list bool),
@@ -33,3 +38,36 @@ Theorem C16_crc_is_bitwise : forall w poly bytes,
   crc w poly bytes = run w poly 0 (flat_map (byte_bits 8) bytes).
 Proof. exact crc_is_run. Qed.
 Print Assumptions C16_crc_is_bitwise.
+
+(* ---- the stored CRC field ---- *)
+Theorem C16_crc16_accept_iff : forall (m : list bool) (c : N), c < 2 ^ 16 ->
+  (run 16 32773 0 (m ++ byte_bits 16 c) = 0 <-> c = run 16 32773 0 m).
+Proof. exact crc16_accept_iff. Qed.
+Print Assumptions C16_crc16_accept_iff.
+
+Theorem C16_crc16_field_bursts : forall (m m' : list bool) (c' : N) (i j : nat) (p : list bool),
+  length m = length m' -> c' < 2 ^ 16 ->
+  zipxor (m ++ byte_bits 16 (run 16 32773 0 m)) (m' ++ byte_bits 16 c') = repeat false i ++ p ++ repeat false j ->
+  length p = 16%nat -> existsb (fun b => b) p = true ->
+  c' <> run 16 32773 0 m'.
+Proof. exact crc16_field_burst_detected. Qed.
+Print Assumptions C16_crc16_field_bursts.
+
+Theorem C16_crc8_field_bursts : forall (m m' : list bool) (c' : N) (i j : nat) (p : list bool),
+  length m = length m' -> c' < 2 ^ 8 ->
+  zipxor (m ++ byte_bits 8 (run 8 7 0 m)) (m' ++ byte_bits 8 c') = repeat false i ++ p ++ repeat false j ->
+  length p = 8%nat -> existsb (fun b => b) p = true ->
+  c' <> run 8 7 0 m'.
+Proof. exact crc8_field_burst_detected. Qed.
+Print Assumptions C16_crc8_field_bursts.
+
+(* the frame footer on the wire: body bytes, then the CRC-16 big-endian; any burst of span <= 16 bits in these
+   bytes leaves a footer the parser's comparison rejects *)
+Theorem C16_footer_bursts : forall (body body' : list N) (c' : N) (i j : nat) (p : list bool),
+  length body = length body' -> c' < 2 ^ 16 ->
+  zipxor (bytes_bits8 (body ++ [crc16 body / 256; crc16 body mod 256]))
+         (bytes_bits8 (body' ++ [c' / 256; c' mod 256])) = repeat false i ++ p ++ repeat false j ->
+  length p = 16%nat -> existsb (fun b => b) p = true ->
+  c' <> crc16 body'.
+Proof. exact crc16_footer_burst_detected. Qed.
+Print Assumptions C16_footer_bursts.
